@@ -41,3 +41,38 @@ package loader
 //@   loop 2 invariant forall k string :: #done[k] && bothTables(a, b, k) ==> has(out, k) && istable(out[k]) && mergedFrom(out[k].(map[string]interface{}), a[k].(map[string]interface{}), b[k].(map[string]interface{}))
 //@   loop 2 invariant forall k string :: #done[k] ==> has(b, k)
 //@   loop 2 invariant forall m gomap[string]interface{}, k string :: !fresh(m) ==> has(m, k) == old(has(m, k)) && m[k] == old(m[k])
+
+// ---- C15 / C16: loading a chart directory — a file matched by the ignore rules is never loaded (so it
+// can never reach a packaged archive), only regular files within the per-file size limit are read,
+// and every call adds at most one file
+
+//@ func LoadDir$1
+//@   props C15 C16
+//@   requires rules != nil && (err == nil ==> fi != nil)
+//@   ensures [at-most-one-file-per-call] (len(files) == old(len(files)) || len(files) == old(len(files)) + 1) && (forall j int :: 0 <= j && j < old(len(files)) ==> files[j] == old(files[j]))
+//@   ensures [ignored-files-are-never-loaded] len(files) == old(len(files)) + 1 ==> files[len(files)-1] != nil && !ignoredBy(rules, files[len(files)-1].Name, fi)
+//@   ensures [errors-load-nothing] result != nil ==> len(files) == old(len(files))
+
+// ---- C15: LoadFiles keeps every input file, name and bytes, in order, in Chart.Raw; templates are
+// exactly classified by their path prefix and carry the bytes of their file
+
+//@ ghost func filesNonNil(fs []*BufferedFile) bool = forall j int :: 0 <= j && j < len(fs) ==> fs[j] != nil
+//@ ghost func templatesSound(c *chart.Chart) bool = forall q int :: 0 <= q && q < len(c.Templates) ==> c.Templates[q] != nil && strings.HasPrefix(c.Templates[q].Name, "templates/")
+//@ ghost func subchartFilesOK(m gomap[string][]*BufferedFile) bool = m != nil && (forall n string, q int :: has(m, n) && 0 <= q && q < len(m[n]) ==> m[n][q] != nil)
+
+//@ func LoadFiles
+//@   props C15
+//@   requires filesNonNil(files)
+//@   ensures [raw-keeps-every-file-byte-for-byte] result1 == nil ==> result0 != nil && len(result0.Raw) == len(files) && (forall j int :: 0 <= j && j < len(files) ==> result0.Raw[j] != nil && result0.Raw[j].Name == old(files[j].Name) && result0.Raw[j].Data == old(files[j].Data))
+//@   ensures [templates-are-files-under-templates] result1 == nil ==> templatesSound(result0)
+//@   loop 1 invariant [raw] c != nil && fresh(c) && len(c.Raw) == #iter && (forall j int :: 0 <= j && j < #iter ==> c.Raw[j] != nil && c.Raw[j].Name == old(files[j].Name) && c.Raw[j].Data == old(files[j].Data)) && len(c.Templates) == 0
+//@   loop 1 invariant [inputs] filesNonNil(files) && (forall j int :: #iter <= j && j < len(files) ==> files[j].Name == old(files[j].Name) && files[j].Data == old(files[j].Data))
+//@   loop 2 invariant [raw] c != nil && fresh(c) && len(c.Raw) == len(files) && (forall j int :: 0 <= j && j < len(files) ==> c.Raw[j] != nil && c.Raw[j].Name == old(files[j].Name) && c.Raw[j].Data == old(files[j].Data)) && templatesSound(c)
+//@   loop 2 invariant [inputs] filesNonNil(files) && subchartFilesOK(subcharts)
+//@   loop 3 invariant [c] c != nil && fresh(c)
+//@   loop 3 invariant [rawlen] len(c.Raw) == len(files)
+//@   loop 3 invariant [raw] forall j int :: 0 <= j && j < len(files) ==> c.Raw[j] != nil && c.Raw[j].Name == old(files[j].Name) && c.Raw[j].Data == old(files[j].Data)
+//@   loop 3 invariant [tpl] templatesSound(c)
+//@   loop 3 invariant [inputs] subchartFilesOK(subcharts)
+//@   loop 4 invariant [raw] c != nil && fresh(c) && len(c.Raw) == len(files) && (forall j int :: 0 <= j && j < len(files) ==> c.Raw[j] != nil && c.Raw[j].Name == old(files[j].Name) && c.Raw[j].Data == old(files[j].Data)) && templatesSound(c)
+//@   loop 4 invariant [inputs] subchartFilesOK(subcharts) && filesNonNil(buff) && filesNonNil(#range)
